@@ -247,6 +247,16 @@ func Copy[T any](value T, extensions ...CopyExtension[T]) T {
 		valueCopy := *typedValue
 		return any(&valueCopy).(T)
 
+	case []error:
+		var valueCopy []error
+
+		if typedValue != nil {
+			valueCopy = make([]error, len(typedValue))
+			copy(valueCopy, typedValue)
+		}
+
+		return any(valueCopy).(T)
+
 	case []string:
 		var valueCopy []string
 
